@@ -12,6 +12,7 @@ import (
 	"fmt"
 	"io"
 	"runtime"
+	"sort"
 	"strings"
 	"sync"
 	"testing"
@@ -68,6 +69,7 @@ type uScript struct {
 	Steps   []uStep   `json:"steps"`
 	Watch   int       `json:"watch"` // watchdog per call in ms (default 3000)
 	Settle  int       `json:"settle"`
+	Both    bool      `json:"both"` // C13: run twice (fresh buffers / reused and scribbled buffers) and compare emissions
 }
 
 var errUInner = errors.New("verif: injected transport failure")
@@ -139,6 +141,10 @@ type uEnv struct {
 	nextErr bool
 	nextRC  []byte
 	pacing  *pacing.InterceptorFactory
+	quiet    bool  // collect emissions only, log nothing
+	scribble bool  // overwrite caller-owned buffers as soon as a call has returned
+	emis     []vfM // everything the chain emitted or recorded that derives from packet contents
+	readBuf  []byte
 }
 
 type uSyncBuf struct {
@@ -154,9 +160,31 @@ func (s *uSyncBuf) Write(p []byte) (int, error) {
 }
 
 func (e *uEnv) emit(v vfM) {
+	if e.quiet {
+		return
+	}
 	e.mu.Lock()
 	e.out.Emit(v)
 	e.mu.Unlock()
+}
+
+// emission record of a packet the chain wrote or dumped by itself (sequence numbers of injected streams are random)
+func uEmis(kind string, h *rtp.Header, pl []byte, keepSeq bool) vfM {
+	r := vfPkt(h, pl)
+	r["k"] = kind
+	if !keepSeq {
+		r["seq"] = 0
+	}
+
+	return r
+}
+
+func (e *uEnv) dumpRTP(pkt *rtp.Packet, _ interceptor.Attributes) ([]byte, error) {
+	e.mu.Lock()
+	e.emis = append(e.emis, uEmis("dump", &pkt.Header, pkt.Payload, pkt.PayloadType == 96))
+	e.mu.Unlock()
+
+	return nil, nil
 }
 
 func uOpt(m uMember, k string, d int) int {
@@ -217,9 +245,11 @@ func (e *uEnv) factory(m uMember) (interceptor.Factory, error) { //nolint:cyclop
 	case "stats":
 		return stats.NewInterceptor()
 	case "pdrecv":
-		return packetdump.NewReceiverInterceptor(packetdump.RTPWriter(e.dump), packetdump.RTCPWriter(e.dump))
+		return packetdump.NewReceiverInterceptor(packetdump.RTPWriter(e.dump), packetdump.RTCPWriter(e.dump),
+			packetdump.RTPBinaryFormatter(e.dumpRTP))
 	case "pdsend":
-		return packetdump.NewSenderInterceptor(packetdump.RTPWriter(e.dump), packetdump.RTCPWriter(e.dump))
+		return packetdump.NewSenderInterceptor(packetdump.RTPWriter(e.dump), packetdump.RTCPWriter(e.dump),
+			packetdump.RTPBinaryFormatter(e.dumpRTP))
 	case "pli":
 		return intervalpli.NewReceiverInterceptor(intervalpli.GeneratorInterval(ivl))
 	case "flexfec":
@@ -230,7 +260,15 @@ func (e *uEnv) factory(m uMember) (interceptor.Factory, error) { //nolint:cyclop
 			return gcc.NewSendSideBWE(gcc.SendSideBWEPacer(gcc.NewNoOpPacer()))
 		})
 	case "ccleaky":
-		return cc.NewInterceptor(func() (cc.BandwidthEstimator, error) { return gcc.NewSendSideBWE() })
+		rate := uOpt(m, "rate", 0)
+
+		return cc.NewInterceptor(func() (cc.BandwidthEstimator, error) {
+			if rate > 0 {
+				return gcc.NewSendSideBWE(gcc.SendSideBWEInitialBitrate(rate), gcc.SendSideBWEMaxBitrate(2*rate))
+			}
+
+			return gcc.NewSendSideBWE()
+		})
 	case "jitter":
 		return jitterbuffer.NewInterceptor()
 	case "pacing":
@@ -323,13 +361,19 @@ func (e *uEnv) wireRTP(s uint32) interceptor.RTPWriter {
 		rec := vfPkt(h, pl)
 		if app {
 			if e.failNow {
-				e.out.Emit(vfM{"a": "wire", "t": "rtp", "s": s, "app": true, "failed": true, "closed": e.closed, "pkt": rec, "sum": []vfM{}})
+				if !e.quiet {
+					e.out.Emit(vfM{"a": "wire", "t": "rtp", "s": s, "app": true, "failed": true, "closed": e.closed, "pkt": rec, "sum": []vfM{}})
+				}
 
 				return 0, errUInner
 			}
 			e.wireApp = append(e.wireApp, rec)
+		} else {
+			e.emis = append(e.emis, uEmis("rtp", h, pl, h.SSRC == s && h.PayloadType == 96))
 		}
-		e.out.Emit(vfM{"a": "wire", "t": "rtp", "s": s, "app": app, "failed": false, "closed": e.closed, "pkt": rec, "sum": []vfM{}})
+		if !e.quiet {
+			e.out.Emit(vfM{"a": "wire", "t": "rtp", "s": s, "app": app, "failed": false, "closed": e.closed, "pkt": rec, "sum": []vfM{}})
+		}
 
 		return h.MarshalSize() + len(pl), nil
 	})
@@ -341,14 +385,18 @@ func (e *uEnv) wireRTCP() interceptor.RTCPWriter {
 		defer e.mu.Unlock()
 		app := len(pkts) > 0 && e.curRTCP != nil && pkts[0] == e.curRTCP
 		if app && e.failNow {
-			e.out.Emit(vfM{"a": "wire", "t": "rtcp", "s": 0, "app": true, "failed": true, "closed": e.closed, "pkt": vfM{}, "sum": uSumRTCP(pkts)})
+			if !e.quiet {
+				e.out.Emit(vfM{"a": "wire", "t": "rtcp", "s": 0, "app": true, "failed": true, "closed": e.closed, "pkt": vfM{}, "sum": uSumRTCP(pkts)})
+			}
 
 			return 0, errUInner
 		}
 		if app {
 			e.wireApp = append(e.wireApp, vfM{"n": len(pkts)})
 		}
-		e.out.Emit(vfM{"a": "wire", "t": "rtcp", "s": 0, "app": app, "failed": false, "closed": e.closed, "pkt": vfM{}, "sum": uSumRTCP(pkts)})
+		if !e.quiet {
+			e.out.Emit(vfM{"a": "wire", "t": "rtcp", "s": 0, "app": app, "failed": false, "closed": e.closed, "pkt": vfM{}, "sum": uSumRTCP(pkts)})
+		}
 
 		return len(pkts), nil
 	})
@@ -434,8 +482,39 @@ func TestVerifUnivExec(t *testing.T) {
 		if err := json.Unmarshal(raw, &sc); err != nil {
 			t.Fatalf("VERIF-INFRA bad script: %v", err)
 		}
-		uRun(t, &sc, out)
+		if !sc.Both {
+			uRun(t, &sc, out, true, false)
+
+			continue
+		}
+		fresh := uRun(t, &sc, out, false, true)
+		reused := uRun(t, &sc, out, true, true)
+		kinds := []string{}
+		for _, m := range sc.Members {
+			kinds = append(kinds, m.K)
+		}
+		out.Emit(vfM{"a": "reset", "members": kinds})
+		out.Emit(vfM{"a": "cmp", "fresh": uSorted(fresh), "reused": uSorted(reused)})
 	}
+}
+
+func uSorted(in []vfM) []vfM {
+	type kv struct {
+		k string
+		v vfM
+	}
+	tmp := make([]kv, 0, len(in))
+	for _, v := range in {
+		b, _ := json.Marshal(v)
+		tmp = append(tmp, kv{string(b), v})
+	}
+	sort.Slice(tmp, func(i, j int) bool { return tmp[i].k < tmp[j].k })
+	res := make([]vfM, 0, len(in))
+	for _, x := range tmp {
+		res = append(res, x.v)
+	}
+
+	return res
 }
 
 type uBound struct {
@@ -465,9 +544,9 @@ func uInfo(st *uStep) *interceptor.StreamInfo {
 	return info
 }
 
-func uRun(t *testing.T, sc *uScript, out *vfWriter) { //nolint:gocognit,cyclop,maintidx
+func uRun(t *testing.T, sc *uScript, out *vfWriter, scribble, quiet bool) []vfM { //nolint:gocognit,cyclop,maintidx
 	t.Helper()
-	e := &uEnv{t: t, out: out, dump: &uSyncBuf{}, nextRTP: map[uint32][]byte{}}
+	e := &uEnv{t: t, out: out, dump: &uSyncBuf{}, nextRTP: map[uint32][]byte{}, scribble: scribble, quiet: quiet}
 	kinds := []string{}
 	reg := &interceptor.Registry{}
 	for _, m := range sc.Members {
@@ -602,11 +681,18 @@ func uRun(t *testing.T, sc *uScript, out *vfWriter) { //nolint:gocognit,cyclop,m
 				w = []vfM{}
 			}
 			ev["n"], ev["err"], ev["wire"] = n, uErrClass(werr), w
-			// the caller reuses its buffers immediately (C13)
-			for i := range pl {
-				pl[i] = 0xEE
+			if e.scribble { // the caller reuses its buffers immediately (C13)
+				for i := range pl {
+					pl[i] = 0xEE
+				}
+				h.SequenceNumber, h.Timestamp, h.Marker = 0xDEAD, 0x7EADBEEF, !h.Marker
+				for i := range h.CSRC {
+					h.CSRC[i] = 0x6EEEEEEE
+				}
+				for i := range h.Extensions {
+					h.Extensions[i] = rtp.Extension{}
+				}
 			}
-			h.SequenceNumber, h.Timestamp, h.Marker = 0xDEAD, 0x7EADBEEF, !h.Marker
 		case "wrtcp":
 			if rtcpW == nil {
 				ev["skipped"] = true
@@ -668,6 +754,12 @@ func uRun(t *testing.T, sc *uScript, out *vfWriter) { //nolint:gocognit,cyclop,m
 			e.nextRTP[st.S], e.nextErr = rawb, st.Fail
 			e.mu.Unlock()
 			buf := make([]byte, 1500)
+			if e.scribble {
+				if e.readBuf == nil {
+					e.readBuf = make([]byte, 1500)
+				}
+				buf = e.readBuf
+			}
 			var n int
 			var rerr error
 			blocked, pan = uGuard(limit, func() { n, _, rerr = b.reader.Read(buf, interceptor.Attributes{}) })
@@ -676,6 +768,11 @@ func uRun(t *testing.T, sc *uScript, out *vfWriter) { //nolint:gocognit,cyclop,m
 			e.mu.Unlock()
 			ev["n"], ev["err"], ev["len"] = n, uErrClass(rerr), len(rawb)
 			ev["same"] = n <= len(buf) && n >= 0 && bytes.Equal(buf[:min(n, len(buf))], rawb)
+			if e.scribble && !blocked {
+				for i := range buf {
+					buf[i] = 0xEE
+				}
+			}
 		case "rrtcp":
 			if rtcpR == nil {
 				ev["skipped"] = true
@@ -784,6 +881,20 @@ func uRun(t *testing.T, sc *uScript, out *vfWriter) { //nolint:gocognit,cyclop,m
 		settle = sc.Settle
 	}
 	time.Sleep(time.Duration(settle) * time.Millisecond)
+	if quiet { // wait until asynchronous emissions (paced packets, retransmissions, dumps) have stopped arriving
+		last, stable := -1, 0
+		for i := 0; i < 200 && stable < 4; i++ {
+			e.mu.Lock()
+			n := len(e.emis)
+			e.mu.Unlock()
+			if n == last {
+				stable++
+			} else {
+				last, stable = n, 0
+			}
+			time.Sleep(10 * time.Millisecond)
+		}
+	}
 	probes := []vfM{}
 	for _, p := range e.probes {
 		p.mu.Lock()
@@ -806,4 +917,11 @@ func uRun(t *testing.T, sc *uScript, out *vfWriter) { //nolint:gocognit,cyclop,m
 	}
 	e.emit(end)
 	_ = io.Discard
+	if closed && quiet {
+		time.Sleep(5 * time.Millisecond)
+	}
+	e.mu.Lock()
+	defer e.mu.Unlock()
+
+	return append([]vfM{}, e.emis...)
 }
